@@ -3110,6 +3110,93 @@ theorem mapPipeline_flatten_ignores_drop {κ} (t0 t' : RawTree) (cfg : Config) (
       simp only [mkRecord, walkD, walk_onelevel_congr vote c h1 h2 hn]
     rw [hmk, h1, h2]
 
+/-! ### any tiling of the rows -/
+
+theorem tilesFrom_cover {α} (xs : List α) : ∀ (borders : List (Nat × Nat)) (a : Nat),
+    tilesFrom xs.length a borders = true →
+    borders.flatMap (fun r => slice xs r.1 r.2) = xs.drop a
+  | [], a, h => by
+    simp only [tilesFrom, beq_iff_eq] at h
+    subst h; simp
+  | (r0, r1) :: rest, a, h => by
+    simp only [tilesFrom, Bool.and_eq_true, beq_iff_eq, decide_eq_true_eq] at h
+    obtain ⟨⟨⟨h0, hlt⟩, hle⟩, hrest⟩ := h
+    subst h0
+    simp only [List.flatMap_cons, tilesFrom_cover xs rest r1 hrest]
+    exact slice_append_drop xs (Nat.le_of_lt hlt) hle
+
+theorem tiles_cover {α} (xs : List α) (borders : List (Nat × Nat))
+    (h : tilesB xs.length borders = true) :
+    borders.flatMap (fun r => slice xs r.1 r.2) = xs := by
+  have := tilesFrom_cover xs borders 0 h
+  simpa using this
+
+/-- the borders of the row iterator at chunk size `cs >= 1` are a tiling -/
+theorem chunksFrom_tiles (n cs : Nat) (hcs : 1 ≤ cs) : ∀ (fuel r0 : Nat), r0 ≤ n → n - r0 ≤ fuel →
+    tilesFrom n r0 (chunksFrom n cs fuel r0) = true
+  | 0, r0, h0, hf => by
+    have : r0 = n := by omega
+    subst this; simp [chunksFrom, tilesFrom]
+  | fuel+1, r0, h0, hf => by
+    simp only [chunksFrom]
+    by_cases hge : r0 ≥ n
+    · have : r0 = n := by omega
+      subst this; simp [tilesFrom]
+    · simp only [hge, if_false, tilesFrom, beq_self_eq_true, Bool.true_and, Bool.and_eq_true,
+        decide_eq_true_eq]
+      refine ⟨⟨by omega, by omega⟩, ?_⟩
+      exact chunksFrom_tiles n cs hcs fuel (min n (r0 + cs)) (by omega) (by omega)
+
+theorem chunks_tiles (n cs : Nat) (hcs : 1 ≤ cs) : tilesB n (chunks n cs) = true :=
+  chunksFrom_tiles n cs hcs n 0 (by omega) (by omega)
+
+/-- the pipeline is the per-cell map for ANY tiling of the rows and any
+gathering order -/
+theorem mapPipelineChunks_spec {κ} (t0 t : RawTree) (cfg : Config) (vote : Oracle κ)
+    (ids : List CellId) (cells : List κ) (borders : List (Nat × Nat)) (order : List Nat)
+    (hrun : runTree t0 cfg = .ok t) (hwf : wfb t = true) (hv : VoteOK t vote)
+    (hlen : ids.length = cells.length) (hnd : ids.Nodup)
+    (htiles : tilesB cells.length borders = true)
+    (horder : order.Perm (List.range borders.length)) :
+    mapPipelineChunks t0 cfg vote ids cells borders order =
+      backfill t0.dropCells
+        ((List.zipWith (mkRecord t vote) ids cells).map (markDirect t.hierarchy)) := by
+  let recs := List.zipWith (mkRecord t vote) ids cells
+  have hrl : recs.length = cells.length := by simp [recs, hlen]
+  unfold mapPipelineChunks
+  simp only [hrun, runChunks_eq hwf hv ids cells hlen]
+  have hflat : (borders.map (fun r => slice recs r.1 r.2)).flatten = recs := by
+    have := tiles_cover recs borders (by rw [hrl]; exact htiles)
+    rw [List.flatMap_def] at this
+    exact this
+  have hperm := gather_perm (borders.map (fun r => slice recs r.1 r.2)) order
+    (by simpa using horder)
+  rw [hflat] at hperm
+  have hids : (recs.map (markDirect t.hierarchy)).map (·.cellId) = ids := by
+    simp only [List.map_map, recs]
+    have : ((fun r : Record => r.cellId) ∘ markDirect t.hierarchy) = fun r => r.cellId := by
+      funext r; rfl
+    rw [this]
+    exact map_cellId_zipWith t vote ids cells hlen
+  rw [reorderBlob_perm ids _ (recs.map (markDirect t.hierarchy)) (hperm.map _) hids hnd]
+
+/-- the chunking of the code is one instance -/
+theorem mapPipeline_eq_chunks {κ} (t0 : RawTree) (cfg : Config) (vote : Oracle κ)
+    (ids : List CellId) (cells : List κ) (order : List Nat)
+    (hproc : 1 ≤ cfg.nProc) (hcs : 1 ≤ cfg.chunkSize) :
+    mapPipeline t0 cfg vote ids cells order =
+      mapPipelineChunks t0 cfg vote ids cells
+        (chunks cells.length (effChunk cells.length cfg.nProc cfg.chunkSize)) order := by
+  have hcs' := effChunk_pos (n := cells.length) (nProc := cfg.nProc) hcs
+  have hp0 : (cfg.nProc == 0) = false := by
+    have : cfg.nProc ≠ 0 := by omega
+    simpa using this
+  have hc0 : (effChunk cells.length cfg.nProc cfg.chunkSize == 0) = false := by
+    have : effChunk cells.length cfg.nProc cfg.chunkSize ≠ 0 := by omega
+    simpa using this
+  unfold mapPipeline mapPipelineChunks
+  simp only [hp0, hc0, Bool.false_eq_true, if_false]
+
 /-! ### a concrete instance for the non-vacuity examples of `Props/C01, C06, C17` -/
 
 /-! a 3-level taxonomy with a single top node (10), a single-child parent (20)
